@@ -370,6 +370,6 @@ def run_api(case, ctx):
 
 
 
-CHECKS = [Check('batch', batch_case(), run, quick=500, thorough=16000, doc='alone vs in generated batch orderings'),
+CHECKS = [Check('batch', batch_case(), run, quick=500, thorough=8000, doc='alone vs in generated batch orderings'),
           Check('api-requests', api_case(), run_api, quick=150, thorough=4000,
                 doc='PathRequest objects built with the default route lists: alone vs together, class defaults untouched')]
